@@ -1,3 +1,3 @@
-import Driver.Common
-/-! Model driver for C03 — not built yet. -/
-def main (_args : List String) : IO Unit := pure ()
+import Driver.RdProto
+/-! Model driver for C03 (paged and resumed reading): protocol in `Driver/RdProto.lean`. -/
+def main (args : List String) : IO Unit := Driver.run Driver.Rd.step ({} : Driver.Rd.DSt) args
